@@ -77,6 +77,23 @@ theorem stale_iff_documented (i : StaleIn) (h1 : minI64 ≤ i.freshness) (h2 : i
     · exact ⟨hf, Or.inl h⟩
     · exact ⟨hf, Or.inr ⟨hs, a, ha, hi, (satSub_gt_iff _ _ _ h1 h2).2 hl⟩⟩
 
+/-- **Strict mode, stated on the last applied entry.** After `fsmApply` of ANY entry (index
+`idx`, appended by the leader at `appended`, applied here at `applied`), a node that has
+heard from the leader within the bound but is behind (`commit ≠ idx`) refuses a strict
+read exactly when that entry was applied more than the bound after it was appended. -/
+theorem strict_stale_after_entry (b : Book) (idx : Nat) (applied appended now lc : Int) (commit : Nat)
+    (f : Int) (hf : f ≠ 0) (h1 : minI64 ≤ f) (h2 : f < maxI64)
+    (hcontact : ¬ now - lc > f) (hbehind : idx ≠ commit) :
+    isStaleRead ((b.apply idx applied appended).staleIn now lc commit f true) = true ↔ applied - appended > f := by
+  rw [stale_iff_documented _ h1 h2]
+  simp only [Book.apply, Book.staleIn]
+  constructor
+  · rintro ⟨_, h | ⟨_, a, ha, _, hl⟩⟩
+    · exact absurd h hcontact
+    · cases ha; exact hl
+  · intro h
+    refine ⟨hf, Or.inr ⟨?_, appended, ?_, hbehind, h⟩⟩ <;> simp
+
 /-- a node that believes it is leader is never refused for staleness -/
 theorem leader_never_stale (i : StaleIn) : storeIsStale true i = false := rfl
 
@@ -240,6 +257,20 @@ theorem store_isStaleRead_source_shape :
 theorem isStaleRead_source_shape : Gen.ReadPath.isStaleReadFn = Expect.ReadPath.isStaleReadFn := by decide
 theorem waitLin_step_order :
     Expect.ReadPath.callsOf Gen.ReadPath.waitLin = LinRead.stepNames := by decide
+
+/-- the deferred block of `fsmApply` (run for every entry handed to the FSM) -/
+def deferBlock (l : List (String × String)) : List (String × String) :=
+  match l with
+  | ("defer", "") :: rest => rest.takeWhile (fun t => t ≠ ("end", ""))
+  | _ => []
+
+/-- `fsmApply` records the FSM index, the local apply time and the leader's append time in
+its deferred block — for EVERY applied entry, not only for those that changed the database —
+so the three values the strict staleness check reads always describe the same entry -/
+theorem fsmApply_records_every_entry :
+    ["s.fsmIdx.Store", "s.fsmTarget.Signal", "s.fsmUpdateTime.Store", "s.appendedAtTime.Store"].all
+      (fun c => (Expect.ReadPath.callsOf (deferBlock Gen.ReadPath.fsmApply)).contains c) = true := by
+  decide
 
 /-- the exits of `IsStaleRead`, in source order, are the branches of the model -/
 theorem isStaleRead_exits :
